@@ -652,3 +652,14 @@ Example build_tree_example : forall own_first mark_owner, exists m',
              own_first mark_owner 20 [mkOrec None true [] None; mkOrec (Some 0) true [] None]
   = Some (Some (m', [(0, None); (1, Some 0)])).
 Proof. intros [|] [|]; eexists; vm_compute; reflexivity. Qed.
+
+(* ================================================================ Part 3: termination of CheckSplitOwner *)
+(* The "#942" descent into the split list of a split without points is not protected by the recursive_split marker:
+   a point-less OutRec whose split list leads back to itself sends CheckSplitOwner into an unbounded recursion. *)
+Theorem check_split_refuted_pointless_cycle : forall inside bcontains,
+  exists m i spl, forall fuel, check_split_owner inside bcontains fuel m i spl = None.
+Proof.
+  intros inside bcontains. exists [mkOrec None false [0] None; mkOrec None true [] None], 1, [0].
+  induction fuel as [|f IH]; [reflexivity|].
+  cbn [check_split_owner pts_of get nth has_pts negb splits_of splits]. rewrite IH. reflexivity.
+Qed.
